@@ -56,11 +56,18 @@ def _mmul(m1, m2):
     return tuple(sorted(d.items()))
 
 
+WORK = [None, 0]  # [limit or None, monomial products done]: a cheap-attempt budget (clear_denominators(force=True))
+
+
 def p_mul(a, b):
     if not a or not b:
         return {}
     if len(a) * len(b) > 4 * MAX_MONOMIALS:
         raise TooBig()
+    if WORK[0] is not None:
+        WORK[1] += len(a) * len(b)
+        if WORK[1] > WORK[0]:
+            raise TooBig()
     out = {}
     for m1, c1 in a.items():
         for m2, c2 in b.items():
@@ -243,7 +250,8 @@ def identical_rational(a, b):
 
 
 def clear_denominators(phi, force=False):
-    """rewrite every (dis)equality atom a ~ b of the boolean term phi into num(a-b) ~ 0.  Sound under the assumption that all
+    """(force=True: also atoms without divisions, under a small work budget -- a cheap attempt made before every query.)
+    rewrite every (dis)equality atom a ~ b of the boolean term phi into num(a-b) ~ 0.  Sound under the assumption that all
     denominators occurring in phi are non-zero (the caller asserts that).  Returns (new phi, changed?)."""
     _sync_units()
     N = Normalizer()
@@ -311,7 +319,11 @@ def clear_denominators(phi, force=False):
                 return {z3.Z3_OP_LE: p <= 0, z3.Z3_OP_GE: p >= 0, z3.Z3_OP_LT: p < 0, z3.Z3_OP_GT: p > 0}[k]
         return t
 
-    out = walk(phi)
+    WORK[0], WORK[1] = (300000 if force else None), 0
+    try:
+        out = walk(phi)
+    finally:
+        WORK[0] = None
     return out, changed[0]
 
 
